@@ -105,3 +105,11 @@ Proof. unfold sh_read_all, sh_read, sh_open. cbn. apply firstn_all. Qed.
 Lemma sh_unrewound_refuted :
   exists c, c <> [] /\ fst (sh_read_all (sh_open false (sh_step false (mkSh c 0) ShHash))) = [].
 Proof. exists [1%Z; 2%Z]. split; [discriminate | reflexivity]. Qed.
+
+(* ---- the string entry point is a calculation over the one-chunk reader of the text ---- *)
+Lemma generated_string_hash_is_calc st text :
+  gen_string_hash string_hash_body calculate_body st text = calc true st [Data text].
+Proof.
+  unfold gen_string_hash, string_hash_body. cbn [sexec]. rewrite generated_calc_is_calc.
+  destruct (calc true st [Data text]) as [[d|] st'] eqn:E; reflexivity.
+Qed.
